@@ -25,8 +25,8 @@ def catalogue():
     import sparseSpACE.Function as F
     C = []
 
-    def add(name, D, mk, integral=True, unit_only=False, breaks=None, kind=None, coef=None, deg=1, tol=1e-8):
-        C.append(dict(name=name, D=D, mk=mk, integral=integral, unit_only=unit_only, breaks=breaks, kind=kind, coef=coef, deg=deg, tol=tol))
+    def add(name, D, mk, integral=True, unit_only=False, breaks=None, kind=None, coef=None, deg=1, tol=1e-8, exact=None, weight=None, nbox=None):
+        C.append(dict(name=name, D=D, mk=mk, integral=integral, unit_only=unit_only, breaks=breaks, kind=kind, coef=coef, deg=deg, tol=tol, exact=exact, weight=weight, nbox=nbox))
     for D in (1, 2, 3):
         add('ConstantValue(3)', D, lambda: F.ConstantValue(3), kind='const', coef=[3] * D)
     for D in (1, 2, 3):
@@ -59,7 +59,22 @@ def catalogue():
     add('FunctionExpVar', 2, lambda: F.FunctionExpVar(), tol=1e-5)
     add('FunctionExpVar3', 3, lambda: F.FunctionExpVar(), tol=1e-5)
     add('FunctionG(2)', 2, lambda: F.FunctionG(2), unit_only=True, breaks=[[0.5], [0.5]])
-    add('FunctionDiagonalDiscont', 2, lambda: F.FunctionDiagonalDiscont(), integral=False)
+    # the analytic value is only offered on the unit cube: volume of the simplex sum(x) < 1
+    add('FunctionDiagonalDiscont', 2, lambda: F.FunctionDiagonalDiscont(), unit_only=True, exact=lambda lo, hi: 0.5)
+    add('FunctionDiagonalDiscont3', 3, lambda: F.FunctionDiagonalDiscont(), unit_only=True, exact=lambda lo, hi: 1.0 / 6.0)
+    add('FunctionGShifted(2)', 2, lambda: F.FunctionGShifted(2), unit_only=True, breaks=[[0.3, 0.8], [0.3, 0.8]])
+    # classes whose 'analytic' value is a numerical integral of the point evaluation (scipy dblquad / tplquad)
+    add('FunctionUQ2', 2, lambda: F.FunctionUQ2(), tol=1e-7, nbox=3)
+    add('FunctionUQ', 3, lambda: F.FunctionUQ(), tol=1e-7, nbox=1)
+    add('FunctionCustom(base class integral)', 2, lambda: F.FunctionCustom(lambda c: c[0] * 2 + c[1] ** 2), tol=1e-7, nbox=2)
+    # expectation-type integrals: the point evaluation weighted with the (truncated) normal density given at construction
+    from scipy.stats import norm as _norm
+    _m, _s, _a, _b = [0.3, 0.6], [0.5, 0.4], [0.0, 0.0], [1.0, 1.0]
+    add('FunctionUQNormal2(Linear)', 2, lambda: F.FunctionUQNormal2(F.FunctionLinear([1, 2]), _m, _s, _a, _b), tol=1e-7, nbox=3,
+        weight=lambda p: float(np.prod([_norm.pdf(p[d], loc=_m[d], scale=_s[d]) / (_norm.cdf(_b[d], loc=_m[d], scale=_s[d]) - _norm.cdf(_a[d], loc=_m[d], scale=_s[d])) for d in range(2)])))
+    _a2, _b2 = [-1.0, -2.0], [2.0, 1.5]
+    add('FunctionUQNormal(CornerPeak)', 2, lambda: F.FunctionUQNormal(F.GenzCornerPeak([1.0, 2.0]), [0.2, 0.1], [0.1, 0.2], _a2, _b2), tol=1e-7, nbox=3,
+        weight=lambda p: float(np.prod([np.exp(-p[d] ** 2 / 2.0) / ((_norm.cdf(_b2[d]) - _norm.cdf(_a2[d])) * np.sqrt(2 * np.pi)) for d in range(2)])))
     add('FunctionShift(CornerPeak,+.1)', 2, lambda: F.FunctionShift(F.GenzCornerPeak([1.0, 2.0]), lambda c: [x + 0.1 for x in c]))
     add('LambdaFunction(x^2)', 1, lambda: F.LambdaFunction(lambda c: c[0] ** 2, lambda c: c[0] ** 3 / 3.0))
     add('FunctionConcatenate', 2, lambda: F.FunctionConcatenate([F.GenzCornerPeak([1.0, 2.0]), F.FunctionLinear([1, 2])]), integral=False)
@@ -68,8 +83,6 @@ def catalogue():
     add('FunctionPower(CustomFunction array)', 2, lambda: F.FunctionPower(F.CustomFunction(lambda c: np.array([c[0] + 0.5, c[1] ** 2 + 0.25]), output_length=2), 3), integral=False)
     add('FunctionCustom', 2, lambda: F.FunctionCustom(lambda c: c[0] * 2 + c[1]), integral=False)
     add('CustomFunction', 2, lambda: F.CustomFunction(lambda c: [c[0], c[1] ** 2], output_length=2), integral=False)
-    add('FunctionUQ2', 2, lambda: F.FunctionUQ2(), integral=False)
-    add('FunctionUQ', 3, lambda: F.FunctionUQ(), integral=False)
     add('FunctionCantileverBeamD', 3, lambda: F.FunctionCantileverBeamD(), integral=False)
     add('FunctionGeneralizedNormal', 2, lambda: F.FunctionGeneralizedNormal([0.5, 0.4], [2.0, 3.0], 1), integral=False)  # analytic integral marked incorrect in the source
     return C
@@ -249,6 +262,8 @@ def check_integrals(rep, tier, rng):
         bl = boxes(e['D'], rng, nbox if e['D'] < 3 else max(3, nbox // 3))
         if e['unit_only']:
             bl = bl[:1]
+        if e.get('nbox'):
+            bl = bl[:e['nbox'] * (1 if tier == 'quick' else 3)]
         for lo, hi in bl:
             f = e['mk']()
             case = {'cls': e['name'], 'lo': lo, 'hi': hi}
@@ -263,8 +278,17 @@ def check_integrals(rep, tier, rng):
                               what='%s.getAnalyticSolutionIntegral(%s,%s) raised %r' % (e['name'], lo, hi, ex))
                 continue
             n1, n2 = (12, 18) if e['D'] == 3 else (24, 36)
-            r1 = gauss_ref(f, lo, hi, e['breaks'], n1)
-            r2 = gauss_ref(f, lo, hi, e['breaks'], n2)
+            if e.get('exact'):
+                r1 = r2 = np.atleast_1d(float(e['exact'](lo, hi)))
+            else:
+                fr = f
+                if e.get('weight'):
+                    class _W:      # point evaluation times the density the class documents
+                        def eval(self, p, _f=f, _w=e['weight']):
+                            return np.atleast_1d(np.asarray(_f.eval(p), dtype=float)) * _w(p)
+                    fr = _W()
+                r1 = gauss_ref(fr, lo, hi, e['breaks'], n1)
+                r2 = gauss_ref(fr, lo, hi, e['breaks'], n2)
             rep.count(1, key=('int', e['name'], tuple(lo), tuple(hi)))
             if not np.allclose(r1, r2, rtol=min(e['tol'], 1e-8) * 0.1, atol=1e-13):
                 rep.residual('reference_not_converged_skipped', True)
